@@ -176,6 +176,9 @@ TEMPLATES = [
     ("cond-condition", "({CALL} == -1) ? 1 : 2", lambda v: "ERR" if v == "ERR" else ("int", 2), "once"),
     ("list-element", "[{CALL}, 1]", lambda v: "ERR" if v == "ERR" else ("list", (v, ("int", 1))), "once"),
     ("nested-in-host-call", "hg({CALL})", lambda v: "ERR" if v == "ERR" else ("int", 101), "once"),
+    ("nested-as-method-argument", "(1).hg({CALL})", lambda v: "ERR" if v == "ERR" else ("int", 102), "once"),
+    ("nested-as-method-receiver", "({CALL}).hg(2)", lambda v: "ERR" if v == "ERR" else ("int", 102), "once"),
+    ("nested-in-method-chain", "({CALL}).hg(2).hg(3)", lambda v: "ERR" if v == "ERR" else ("int", 102), "once"),
     ("or-both-error", "({CALL} == 1) || (1 / 0 == 1)", lambda v: ("bool", True) if v == ("int", 1) else "ERR", "once"),
 ]
 
